@@ -25,7 +25,8 @@ pub struct Case {
     #[serde(default)]
     pub cfg: Option<SimCfg>,
     /// how the Constraints object is built: 0 = Constraints::new, 1 = Constraints::from_degrees,
-    /// 2 = built with other limits and then update_range(from, to)
+    /// 2 = built with other limits and then update_range(from, to), 3 = public from/to edited then
+    /// update_range(c.from, c.to), 4 = new() and then the public tolerances widened by 0.02 rad
     #[serde(default)]
     pub ctor: u8,
     /// history: another constraint set that is sampled once, on the same thread, immediately
@@ -45,6 +46,27 @@ pub fn build(case: &Case) -> Constraints {
         2 => {
             let mut c = Constraints::new([-0.5; 6], [2.5, -1.0, 0.7, 3.0, -2.0, 0.1], 1.0);
             c.update_range(case.from, case.to);
+            c
+        }
+        3 => {
+            // the caller edits the public limits of an existing object and refreshes it with
+            // update_range(c.from, c.to)
+            let mut c = Constraints::new([-0.5; 6], [2.5, -1.0, 0.7, 3.0, -2.0, 0.1], 1.0);
+            c.from = case.from;
+            c.to = case.to;
+            let (f, t) = (c.from, c.to);
+            c.update_range(f, t);
+            c
+        }
+        4 => {
+            // the caller widens the public tolerances a little (a soft margin for `compliant`);
+            // the limits the sampler must respect are still from/to
+            let mut c = Constraints::new(case.from, case.to, 0.0);
+            for j in 0..6 {
+                if c.tolerances[j].is_finite() {
+                    c.tolerances[j] += 0.02;
+                }
+            }
             c
         }
         _ => Constraints::new(case.from, case.to, 0.0),
@@ -436,9 +458,14 @@ pub fn run(tier_name: &str, seed: u64) -> i32 {
             for j in 0..6 {
                 tally.bump(&format!("limits_{}", class_of(from[j], to[j])), 1);
             }
-            let ctor = (w.below(5) as u8).min(2); // 0,1,2,2,2 -> weights: new 20%, from_degrees 20%, update_range 60%? no: see below
-            let ctor = match ctor { 0 => 0u8, 1 => 1, _ => if w.chance(0.3) { 2 } else { 0 } };
-            tally.bump(&format!("constraints_built_by_{}", ["new", "from_degrees", "update_range"][ctor as usize]), 1);
+            let ctor: u8 = match w.below(10) {
+                0 | 1 => 1,
+                2 => 2,
+                3 => 3,
+                4 => 4,
+                _ => 0,
+            };
+            tally.bump(&format!("constraints_built_by_{}", ["new", "from_degrees", "update_range", "edited_fields_then_update_range", "new_then_widened_tolerances"][ctor as usize]), 1);
             let c = build(&Case { from, to, draws: vec![], tasks: 1, cfg: None, ctor, prelude: None });
             let rows = adversarial_rows(&c, &mut w, t.uniform, t.grid, &mut tally);
             let concurrent = t.concurrent_every > 0 && run % t.concurrent_every == 0;
